@@ -679,6 +679,16 @@ func c09Overall(p *Prog, r *Report) {
 		}
 		holds, _ := guardEdges(scan, condNonNil(isErr))
 		if len(holds) == 0 {
+			// not tested at all: then it must be stored unconditionally (sro.Err = err on every path
+			// from the call to a return)
+			keep := func(in ssa.Instruction) bool {
+				st, ok := in.(*ssa.Store)
+				return ok && storesField("newScanResultOptions", "Err")(in) && isErr(st.Val)
+			}
+			if w := findPath(pointOf(call), isReturn, keep, nil); w == nil {
+				r.OK("D4-overall", fa.key+":"+tgt.name+"-error-kept", p.Pos(call.Pos()), "sro.Err = err unconditionally")
+				continue
+			}
 			r.Fail("D4-overall", fa.key+":"+tgt.name, p.Pos(call.Pos()), "the error of "+tgt.name+" is not tested")
 			continue
 		}
